@@ -21,7 +21,7 @@ ASSUMPTIONS = [
 
 def run(tier):
     q = tier == "quick"
-    specs = [("remove_kernel1", 240), ("confine_quick", 400)] if q else [("remove_kernel1", 300), ("remove_kernel2q", 300), ("remove_kernel", 600), ("confine_all", 900)]
+    specs = [("remove_kernel1", 500), ("confine_quick", 1200)] if q else [("remove_kernel1", 300), ("remove_kernel2q", 300), ("remove_kernel", 600), ("confine_all", 900)]
     jobs = [Job("harness.c16", n, H.shards(n), b, per_path_timeout=300.0, twin_budget=300.0,
                 bounds=dict(harness=n, sources=list(H.SRC_NAMES), stubs=list(H.STUB_NAMES)),
                 rule="one path = (source shape, item kinds, string classes)" if n.startswith("remove") else "one path = one (source shape, stub) pair", describe=H.describe)
